@@ -170,7 +170,7 @@ def check_windows(case, spec, r, ck):
             Wown = set(W)
             W = W & set(ck.window(a['base'].get('start'), a['base'].get('end')))
             sz = rows[rows['type'] == 'size']
-            if len(sz) == 1 and not a.get('wacc'):
+            if len(sz) == 1 and not a.get('wacc') and not hasattr(r.op, 'ops'):          # (a split problem has one scale variable per interval)
                 got = float(r.op.c[int(sz.index[0])]); want = float(a.get('fix_costs', 0.)) * float(ck.dt[sorted(Wown)].sum())
                 case.check('window.scaled_fix_costs_over_own_window', abs(got - want) <= 1e-9 * (1 + abs(want)), nonvacuous=bool(a.get('fix_costs')) and len(Wown) < ck.T,
                            asset=a['name'], cost_of_scale_variable=got, fix_costs_times_covered_time=want, start=a.get('start'), end=a.get('end'))
